@@ -4,3 +4,6 @@ CHECK_DEADLOCK FALSE
 \* library has them, so that the rest of the behaviour of those parameter sets is still judged.
 \* The parameter-table judge (hook ots_params) always compares with the formula Ls.
 CONSTANT LsEff <- LsWithKnownFindings
+CONSTANT MaxLevels <- EnvMaxLevels
+CONSTANT MaxHeightAt <- EnvMaxHeightAt
+CONSTANT MinWAt <- EnvMinWAt
